@@ -204,7 +204,10 @@ func (d *Datastore) handleGetDataUpdatesJSON(ctx context.Context, name string, r
 						continue
 					}
 				}
-				root.AddCacheUpdateRecursive(ctx, upd, flagsExisting)
+				_, err = root.AddCacheUpdateRecursive(ctx, upd, flagsExisting)
+				if err != nil {
+					return err
+				}
 			}
 		}
 	}
